@@ -151,6 +151,17 @@ func corrR(ctx *Ctx, e *Eco, nGen int, exhLen int, nProbe int) {
 	reqs = reqs[:0]
 	type rp struct{ ri, pi int }
 	var idx []rp
+	// probes: random pool members, plus — for a third of the ranges — versions derived from the
+	// numbers written in the range itself (its bases with fewer / more components, a changed last
+	// component, each under the pre-release spellings the parser accepts): the boundary of a range
+	// is next to what is written in it
+	relPre := append([]string{"-alpha", "-rc.1", "-rc.2", "rc1", ".dev1", "_rc1", "~rc1", "-0", ".post1", "-beta1"}, c06ExtraPre...)
+	probeStrs := append([]string{}, p.Strs...)
+	probeVals := append([]any{}, p.Vals...)
+	probeIdx := map[string]int{}
+	for i, s := range probeStrs {
+		probeIdx[s] = i
+	}
 	for ri := range okRanges {
 		for k := 0; k < nProbe; k++ {
 			pi := r.Intn(len(p.Strs))
@@ -159,6 +170,29 @@ func corrR(ctx *Ctx, e *Eco, nGen int, exhLen int, nProbe int) {
 			}
 			reqs = append(reqs, "RC O "+e.Name+" "+hx(okRanges[ri])+" "+hx(p.Strs[pi]))
 			idx = append(idx, rp{ri, pi})
+		}
+		if ri%3 == 0 && len(okRanges[ri]) < 80 {
+			rel := prefixRelatives(okRanges[ri], "", relPre)
+			n := 0
+			for _, k := range r.Perm(len(rel)) {
+				t := rel[k]
+				if n >= nProbe || !isASCII(t) {
+					break
+				}
+				pi, ok := probeIdx[t]
+				if !ok {
+					pv := e.Parse(t)
+					if !pv.OK {
+						continue
+					}
+					pi = len(probeStrs)
+					probeStrs, probeVals = append(probeStrs, t), append(probeVals, pv.Val)
+					probeIdx[t] = pi
+				}
+				reqs = append(reqs, "RC O "+e.Name+" "+hx(okRanges[ri])+" "+hx(probeStrs[pi]))
+				idx = append(idx, rp{ri, pi})
+				n++
+			}
 		}
 	}
 	ans, err = ctx.Pool.Map(reqs)
@@ -169,7 +203,7 @@ func corrR(ctx *Ctx, e *Eco, nGen int, exhLen int, nProbe int) {
 	st = res.stream("R.contains/" + e.Name)
 	nTrue := 0
 	for k, a := range ans {
-		c, pan := e.Contains(okVals[idx[k].ri], p.Vals[idx[k].pi])
+		c, pan := e.Contains(okVals[idx[k].ri], probeVals[idx[k].pi])
 		impl := "f"
 		if pan != "" {
 			impl = "panic"
@@ -179,7 +213,7 @@ func corrR(ctx *Ctx, e *Eco, nGen int, exhLen int, nProbe int) {
 		}
 		st.Cases++
 		if impl != a {
-			res.disagree(Disagreement{Stream: "R.contains/" + e.Name, Eco: e.Name, Request: reqs[k], Input: []string{okRanges[idx[k].ri], p.Strs[idx[k].pi]}, Impl: impl, Model: a})
+			res.disagree(Disagreement{Stream: "R.contains/" + e.Name, Eco: e.Name, Request: reqs[k], Input: []string{okRanges[idx[k].ri], probeStrs[idx[k].pi]}, Impl: impl, Model: a})
 		}
 	}
 	res.Evaluations += len(ranges) + len(reqs)
